@@ -21,11 +21,14 @@ func c02(r *core.Run) {
 	run(bin, "wide", uint64(r.Pick(60000, 1000000)), "")
 	run(bin, "deep", uint64(r.Pick(40000, 800000)), "")
 	run(bin, "big", uint64(r.Pick(400, 8000)), "")
+	run(bin, "binlen", 8400, "")
+	run(bin, "long", uint64(r.Pick(6000, 200000)), "")
 	// the unsafe string/slice conversions once more under checkptr
 	cp := r.GoBuild("vchild-checkptr", "./cmd/vchild", "-gcflags=all=-d=checkptr")
 	run(cp, "rand", uint64(r.Pick(40000, 800000)), "checkptr_")
 	run(cp, "big", uint64(r.Pick(60, 1000)), "checkptr_")
-	r.Set("exhaustive_subspace", "stream exh: the complete SmallShapes family (all leaves over a boundary set, all depth-1 containers with <=2 elements, all depth-2 containers with <=2 elements over a reduced depth-1 family); the random streams are not exhaustive")
+	run(cp, "long", uint64(r.Pick(600, 20000)), "checkptr_")
+	r.Set("exhaustive_subspace", "stream exh: the complete SmallShapes family (all leaves over a boundary set, all depth-1 containers with <=2 elements, all depth-2 containers with <=2 elements over a reduced depth-1 family); stream binlen: every binary length 0..4199; the random streams are not exhaustive")
 	r.Set("exhaustive", false)
 	r.Require("cases", 1000)
 	r.Require("checkptr_cases", 100)
